@@ -83,7 +83,7 @@ def generate(rng, n=None, lang="cxx"):
         if lang == "cxx" and k < 0.3:
             node = Node("T%d" % i, "template")
             node.tparams = ["A"] if rng.random() < 0.6 else ["A", "B"]
-            use = rng.choice(["value", "pointer", "unused", "array", "partial"])
+            use = rng.choice(["value", "pointer", "unused", "array", "partial", "pair", "small-array"])
             node.attrs["use"] = use
             if use == "value":
                 node.members.append("A v;")
@@ -93,6 +93,10 @@ def generate(rng, n=None, lang="cxx"):
                 node.members.append("A arr[%d];" % rng.choice([2, 40]))
             elif use == "partial" and len(node.tparams) == 2:
                 node.members.append("A a; int pad;")
+            elif use == "pair" and len(node.tparams) == 2:
+                node.members.append("A first; B second;")       # pair<char, char>: size 2, alignment 1
+            elif use == "small-array":
+                node.members.append("A few[%d];" % rng.choice([2, 3, 4]))
             else:
                 node.members.append("int unused_param_holder;")
             if rng.random() < 0.3:
@@ -145,7 +149,7 @@ def generate(rng, n=None, lang="cxx"):
                         a = rng.choice(earlier).name
                         node.needs_complete.add(a)
                     else:
-                        a = rng.choice(SCALARS + ["float"])
+                        a = rng.choice(SCALARS + ["float", "char", "short", "char", "signed char"])
                     args.append(a)
                 node.members.append("%s<%s> %s;" % (tp.name, ", ".join(args), f))
                 node.needs_complete.add(tp.name)
